@@ -140,3 +140,26 @@ def _(v):
     yA, yB = odesys.dep
     v.prove_identity("rhs_in_registry_units", odesys.exprs[0] / si_value(reg_t), -si_value(k * ku) * yA)
     v.prove_identity("rhs_product", odesys.exprs[1], -odesys.exprs[0])
+
+
+@harness("C06", "from_text_to_right_hand_side", functions=[ODE + ":get_odesys", ODE + ":get_odesys.<locals>.dydt", "chempy.reactionsystem:ReactionSystem.from_string (native: pyparsing/regex inside, decided in C12)"],
+         kind="shape-bounded", samples=0)
+def _(v):
+    """'from text input through to the result arrays', first half: fixed texts (repeated species, explicit and decimal coefficients, branch and
+    cycle, comments) become exactly the kinetic model written in them; what the integrator then does with the right-hand side is bounded only"""
+    from chempy.chemistry import Substance
+    from chempy.reactionsystem import ReactionSystem
+    from chempy.kinetics.ode import get_odesys
+    from contracts.C04 import FakeSymbolicSys
+    text = "\n".join(["A + 2 A -> B; 0.5", "B + A + 1 B -> 2 C + C; 0.25  # repeated on both sides", "C -> A; 3", "C -> D; 7", "D + 2 D -> A; 0.125"])
+    rsys = ReactionSystem.from_string(text, substance_factory=Substance)
+    v.prove("substances_in_order_of_appearance", list(rsys.substances) == ["A", "B", "C", "D"])
+    v.prove("stoichiometry_as_written", [(dict(r.reac), dict(r.prod)) for r in rsys.rxns] ==
+            [({"A": 3}, {"B": 1}), ({"B": 2, "A": 1}, {"C": 3}), ({"C": 1}, {"A": 1}), ({"C": 1}, {"D": 1}), ({"D": 3}, {"A": 1})])
+    odesys, extra = v.call(get_odesys, rsys, SymbolicSys=FakeSymbolicSys)
+    y = dict(zip(odesys.names, odesys.dep))
+    from fractions import Fraction as F
+    r = [F(1, 2) * y["A"] ** 3, F(1, 4) * y["B"] ** 2 * y["A"], 3 * y["C"], 7 * y["C"], F(1, 8) * y["D"] ** 3]
+    want = {"A": -3 * r[0] - r[1] + r[2] + r[4], "B": r[0] - 2 * r[1], "C": 3 * r[1] - r[2] - r[3], "D": r[3] - 3 * r[4]}
+    for e, s in zip(odesys.exprs, "ABCD"):
+        v.prove_identity("rhs_" + s, e, want[s])
